@@ -41,7 +41,7 @@ Print Assumptions index_above_size_never_valid.
 Theorem admitted_implies_holds_index :
   forall (addr_of : N -> N) (s : step) (x : ctx) (m : msg),
     (length (x_ops x) <= 255)%nat -> m_idx m < 256 ->
-    acted (admit addr_of s x m) = true ->
+    acted (admission addr_of s x m) = true ->
     holds_index (x_ops x) (m_idx m) (addr_of (m_key m)).
 Proof. exact Proofs.C12.admitted_implies_holds_index. Qed.
 Print Assumptions admitted_implies_holds_index.
@@ -49,7 +49,7 @@ Print Assumptions admitted_implies_holds_index.
 (* without the bound on the group size: the seat at the wrapped position *)
 Theorem admitted_implies_seat_wrapped :
   forall (addr_of : N -> N) (s : step) (x : ctx) (m : msg),
-    acted (admit addr_of s x m) = true ->
+    acted (admission addr_of s x m) = true ->
     nth_error (x_ops x) (N.to_nat (wrap_pred (m_idx m))) = Some (addr_of (m_key m)).
 Proof. exact Proofs.C12.admitted_implies_seat_wrapped. Qed.
 Print Assumptions admitted_implies_seat_wrapped.
@@ -75,12 +75,12 @@ Theorem ignored_self :
     | KFollower => In (m_idx m) (x_self x)
     | _ => m_idx m = self1 x
     end ->
-    acted (admit addr_of s x m) = false.
+    acted (admission addr_of s x m) = false.
 Proof. exact Proofs.C12.ignored_self. Qed.
 Print Assumptions ignored_self.
 
 Theorem done_check_counts_self :
-  exists x m, In (m_idx m) (x_self x) /\ admit (fun k => k) SigningDoneCheck x m = Stored.
+  exists x m, In (m_idx m) (x_self x) /\ admission (fun k => k) SigningDoneCheck x m = Stored.
 Proof. exact Proofs.C12.done_check_counts_self. Qed.
 Print Assumptions done_check_counts_self.
 
@@ -88,7 +88,7 @@ Print Assumptions done_check_counts_self.
    and wallet; done check: signed message and attempt): every step *)
 Theorem ignored_other_session :
   forall (addr_of : N -> N) (s : step) (x : ctx) (m : msg),
-    same_session x m = false -> acted (admit addr_of s x m) = false.
+    same_session x m = false -> acted (admission addr_of s x m) = false.
 Proof. exact Proofs.C12.ignored_other_session. Qed.
 Print Assumptions ignored_other_session.
 
@@ -102,7 +102,7 @@ Theorem ignored_excluded :
     | KDone => ~ In (m_idx m) (x_attempt x)
     | KAnnounce | KFollower => False
     end ->
-    acted (admit addr_of s x m) = false.
+    acted (admission addr_of s x m) = false.
 Proof. exact Proofs.C12.ignored_excluded_prop. Qed.
 Print Assumptions ignored_excluded.
 
@@ -127,7 +127,7 @@ Theorem model_outputs_pass_spec :
   forall (addr_of : N -> N) (s : step) (x : ctx) (m : msg),
     (length (x_ops x) <= 255)%nat -> m_idx m < 256 ->
     (kind_of s <> KFollower -> x_self x = [self1 x]) ->
-    admit addr_of s x m <> Malformed ->
-    spec_ok s x m (addr_of (m_key m)) (admit addr_of s x m) = true.
+    admission addr_of s x m <> Malformed ->
+    spec_ok s x m (addr_of (m_key m)) (admission addr_of s x m) = true.
 Proof. exact Proofs.C12.model_outputs_pass_spec. Qed.
 Print Assumptions model_outputs_pass_spec.
